@@ -254,6 +254,32 @@ pub open spec fn only_cells_regs<Sz, N, Sy, C, B>(o: St<Sz, N, Sy, C, B>, n: St<
 }
 
 
+/// C08: cast combinations the language gives a result to (the table of casting.rs read as the language's definition of
+/// `~#`); every other combination is offered to the host
+pub open spec fn cast_defined(l: GarnishDataType, r: GarnishDataType) -> bool {
+    l == r
+    || r == GarnishDataType::CharList || r == GarnishDataType::ByteList || r == GarnishDataType::Symbol
+    || r == GarnishDataType::True || r == GarnishDataType::False || l == GarnishDataType::Unit
+    || (l == GarnishDataType::CharList && (r == GarnishDataType::Number || r == GarnishDataType::Char || r == GarnishDataType::List))
+    || (l == GarnishDataType::Number && (r == GarnishDataType::Char || r == GarnishDataType::Byte))
+    || (l == GarnishDataType::Char && (r == GarnishDataType::Number || r == GarnishDataType::Byte))
+    || (l == GarnishDataType::Byte && (r == GarnishDataType::Number || r == GarnishDataType::Char))
+    || (r == GarnishDataType::List && (l == GarnishDataType::SymbolList || l == GarnishDataType::Range || l == GarnishDataType::ByteList
+            || l == GarnishDataType::Concatenation || l == GarnishDataType::Slice))
+}
+
+/// the type a cast targets: a Type value on the right names it, any other value stands for its own type
+pub open spec fn cast_target<Sz, N, Sy, C, B>(o: St<Sz, N, Sy, C, B>) -> GarnishDataType {
+    if o.cells[opnd_r(o)].ty == GarnishDataType::Type { o.cells[opnd_r(o)].typ } else { o.cells[opnd_r(o)].ty }
+}
+
+/// everything but the value table and the lists under construction is as in `o`
+pub open spec fn same_but_cells_building<Sz, N, Sy, C, B>(o: St<Sz, N, Sy, C, B>, n: St<Sz, N, Sy, C, B>) -> bool {
+    grows(o, n) && n.regs == o.regs && n.values == o.values && n.frames == o.frames && n.instrs == o.instrs && n.jumps == o.jumps
+    && n.cursor == o.cursor && n.host == o.host
+}
+
+
 // ---------------------------------------------------------------------------------
 // Property-level vocabulary, written from the property statements (not from the code)
 // ---------------------------------------------------------------------------------
@@ -978,6 +1004,22 @@ pub fn verif_slice_concat_lookup<Data: GarnishData>(this: &mut Data, value: Data
     -> (r: Result<Option<Data::Size>, RuntimeError<Data::Error>>)
     ensures
         r is Ok ==> only_cells(old(this).st(), final(this).st()),
+        r matches Err(e) ==> e.code() == ErrorType::Unknown,
+{ unimplemented!() }
+
+
+/// Stands for the two `iterate_concatenation_mut(this, src, |this, _, addr| { list_index = this.add_to_list(..)?; .. })`
+/// statements of casting.rs::type_cast, whose closures capture `list_index` mutably (rule R8-cut). Assumed: it only adds
+/// items to the list under construction.
+#[verifier::external_body]
+pub fn verif_concat_into_list<Data: GarnishData>(this: &mut Data, src: Data::Size, list_index: Data::Size) -> (r: Result<Data::Size, RuntimeError<Data::Error>>)
+    ensures
+        r matches Ok(l) ==> grows(old(this).st(), final(this).st()) && old(this).st().building.contains_key(list_index)
+            && (l == list_index || !old(this).st().building.contains_key(l))
+            && final(this).st().building.contains_key(l)
+            && final(this).st().building[l].cap == old(this).st().building[list_index].cap
+            && final(this).st() == (St { cells: final(this).st().cells, data_len: final(this).st().data_len,
+                    building: old(this).st().building.remove(list_index).insert(l, final(this).st().building[l]), ..old(this).st() }),
         r matches Err(e) ==> e.code() == ErrorType::Unknown,
 { unimplemented!() }
 
